@@ -1,6 +1,7 @@
 (* Model/ExprTcCases.v — case format, tie functions and oracles of the c08 engine.  Executable only. *)
 From Octo Require Export ExprTc.
 From Octo Require Export ExprCases.
+From Octo Require Export ExprDeepTypes.
 
 (* column types, the logical expression, what the REAL typechecker produced (as pexpr) or that it panicked,
    evaluations: (variable frames, the calls of abstractly modelled bodies made during this evaluation with their
@@ -9,7 +10,10 @@ Inductive c08_case :=
 | C8 (env : list sty) (le : option lexpr) (tc_obs : tcres pexpr) (runs : list (vctx * list call_rec * outcome value))
 (* query slice: the schema a typechecked plan reports (what --describe shows), as kind sets, and the records
    the materialised plan produced *)
-| C8Q (schema : list sty) (rows : list (list value)).
+| C8Q (schema : list sty) (rows : list (list value))
+(* structured-value slice: the static type (with element / field types) the real typechecker reported for an
+   object / list / tuple valued expression, and the values it evaluated to on conforming rows *)
+| C8S (t : dty) (observed : list value).
 
 (* correspondence 1: the typechecker model produces the physical expression the implementation produced
    (same shape, same descriptor, same static type at every node; types compared as kind sets) *)
@@ -18,6 +22,7 @@ Definition c08_tie_tc (c : c08_case) : bool :=
   | C8 env (Some le) tc_obs _ => tcres_eqb (tc type_inter_aliasing function_table env le) tc_obs
   | C8 _ None _ _ => true
   | C8Q _ _ => true
+  | C8S _ _ => true
   end.
 
 (* correspondence 2: the evaluation model agrees on every run *)
@@ -44,5 +49,6 @@ Definition c08_spec_type (c : c08_case) : bool :=
                         then match obs with Ok v => has_type v (ptype pe) | _ => true end
                         else true) runs
   | C8Q schema rows => forallb (fun r => row_conforms r schema) rows
+  | C8S t vs => forallb (conforms t) vs
   | _ => true
   end.
